@@ -3,9 +3,13 @@
   Kernel-only tactics (`omega`, `simp`, `decide`); no `bv_decide`.
 
   Main results
-  * `safe_conc_zero`, `safe_conc_zero_iff`: DEFECT. `withSafeConcurrency` returns 0 exactly for the
-    positive multiples of 2^32 (`TunePool(1 << 32)`, `WithConcurrency(1 << 32)`, `NewWorker(fn, 1 << 32)`
-    give concurrency 0); `safe_conc_pos` is the positive side, `safe_conc_id` the identity range.
+  * `withSafeConcurrency`: REPAIRED. The function used to end with a bare `uint32(concurrency)`, which
+    truncates, so it returned 0 exactly for the positive multiples of 2^32 (`TunePool(1 << 32)`,
+    `WithConcurrency(1 << 32)`, `NewWorker(fn, 1 << 32)` gave concurrency 0; the former theorems
+    `safe_conc_zero`, `safe_conc_zero_iff`). It now clamps: `uint64(concurrency) > math.MaxUint32`
+    returns `math.MaxUint32`. The three ranges are `safe_conc_cpus` (`c < 1`: the CPUs), `safe_conc_id`
+    (`1 ≤ c < 2^32`: identity), `safe_conc_clamp` (`2^32 ≤ c`: `0xFFFFFFFF`); `safe_conc_never_zero`: the
+    result is never 0 for any `int` (given `cpus ≠ 0`); `safe_conc_pos` is its old, weaker form.
   * `clamp_range`, `clamp_id`.
   * `min_idle_toNat` (exact for all inputs), `min_idle_ge_one`, `min_idle_exact`,
     `min_idle_le_conc`, `min_idle_no_overflow`, and the wrap curiosity `min_idle_wrap`.
@@ -20,19 +24,25 @@ namespace Config
 
 theorem wsc_toNat (cpus : BitVec 32) (c : BitVec 64) :
     (withSafeConcurrency cpus c).toNat =
-      if c.toInt < 1 then cpus.toNat else c.toNat % 2 ^ 32 := by
+      if c.toInt < 1 then cpus.toNat else if 2 ^ 32 ≤ c.toNat then 2 ^ 32 - 1 else c.toNat := by
   unfold withSafeConcurrency
+  have hgt : c > 0xFFFFFFFF#64 ↔ 2 ^ 32 ≤ c.toNat := by
+    show (0xFFFFFFFF#64 : BitVec 64) < c ↔ _
+    rw [BitVec.lt_def]
+    have : (0xFFFFFFFF#64 : BitVec 64).toNat = 4294967295 := rfl
+    rw [this]; omega
   by_cases h : c.toInt < 1
   · simp [BitVec.slt, h]
-  · simp [BitVec.slt, h]
+  · have hs : c.slt 1 = false := by simp [BitVec.slt, h]
+    rw [hs, if_neg (by simp), if_neg h]
+    by_cases h2 : 2 ^ 32 ≤ c.toNat
+    · rw [if_pos (hgt.mpr h2), if_pos h2]; rfl
+    · rw [if_neg (fun hh => h2 (hgt.mp hh)), if_neg h2, BitVec.toNat_setWidth]
+      exact Nat.mod_eq_of_lt (by omega)
 
 theorem toInt_of_pos (c : BitVec 64) (h : 1 ≤ c.toInt) : c.toInt = c.toNat := by
   have h1 := BitVec.toInt_eq_toNat_cond c
   have h2 := c.isLt
-  split at h1 <;> omega
-
-theorem toInt_emod (c : BitVec 64) : c.toInt % 2 ^ 32 = ((c.toNat % 2 ^ 32 : Nat) : Int) := by
-  have h1 := BitVec.toInt_eq_toNat_cond c
   split at h1 <;> omega
 
 theorem ne_zero_iff32 (x : BitVec 32) : x ≠ 0 ↔ x.toNat ≠ 0 := by
@@ -40,55 +50,63 @@ theorem ne_zero_iff32 (x : BitVec 32) : x ≠ 0 ↔ x.toNat ≠ 0 := by
   · intro h h0; exact h (BitVec.eq_of_toNat_eq (by simpa using h0))
   · intro h h0; subst h0; simp at h
 
-/-- exact characterisation of the zero result -/
-theorem safe_conc_zero_iff (cpus : BitVec 32) (c : BitVec 64) (hc : cpus ≠ 0) :
-    withSafeConcurrency cpus c = 0 ↔ (1 ≤ c.toInt ∧ c.toInt % 2 ^ 32 = 0) := by
+/-- REPAIRED (was the defect `safe_conc_zero`): with at least one CPU the limit is never 0, for every
+    Go `int` whatsoever -- no side condition on the argument any more. -/
+theorem safe_conc_never_zero (cpus : BitVec 32) (c : BitVec 64) (hc : cpus ≠ 0) :
+    withSafeConcurrency cpus c ≠ 0 := by
   have hc' := (ne_zero_iff32 cpus).mp hc
-  have h := wsc_toNat cpus c
-  have hm := toInt_emod c
-  constructor
-  · intro h0
-    rw [h0] at h
-    have hz : (0 : BitVec 32).toNat = 0 := rfl
-    rw [hz] at h
-    split at h <;> omega
-  · rintro ⟨h1, h2⟩
-    apply BitVec.eq_of_toNat_eq
-    rw [h, if_neg (by omega)]
-    have hz : (0 : BitVec 32).toNat = 0 := rfl
-    rw [hz]
-    omega
+  apply (ne_zero_iff32 _).mpr
+  rw [wsc_toNat]
+  by_cases h : c.toInt < 1
+  · rw [if_pos h]; exact hc'
+  · rw [if_neg h]
+    have := toInt_of_pos c (by omega)
+    split <;> omega
 
+/-- the old positive side, kept with its statement: the disjunction is no longer needed -/
 theorem safe_conc_pos (cpus : BitVec 32) (c : BitVec 64) (hc : cpus ≠ 0)
-    (h : c.toInt % 2 ^ 32 ≠ 0 ∨ c.toInt < 1) : withSafeConcurrency cpus c ≠ 0 := by
-  intro h0
-  have := (safe_conc_zero_iff cpus c hc).mp h0
-  omega
-
-/-- DEFECT: `TunePool(1 << 32)` / `WithConcurrency(1 << 32)` yields concurrency 0. -/
-theorem safe_conc_zero (cpus : BitVec 32) : withSafeConcurrency cpus (4294967296#64) = 0 := by
-  unfold withSafeConcurrency
-  rw [if_neg (by decide)]
-  decide
+    (_h : c.toInt % 2 ^ 32 ≠ 0 ∨ c.toInt < 1) : withSafeConcurrency cpus c ≠ 0 :=
+  safe_conc_never_zero cpus c hc
 
 theorem safe_conc_id (cpus : BitVec 32) (c : BitVec 64) (h1 : 1 ≤ c.toInt)
     (h2 : c.toInt < 2 ^ 32) : (withSafeConcurrency cpus c).toNat = c.toInt.toNat := by
   have h := wsc_toNat cpus c
   have := toInt_of_pos c h1
-  rw [h, if_neg (by omega)]
+  rw [h, if_neg (by omega), if_neg (by omega)]
   omega
+
+/-- values that do not fit in a `uint32` are clamped to `math.MaxUint32` (they used to be truncated) -/
+theorem safe_conc_clamp (cpus : BitVec 32) (c : BitVec 64) (h : 2 ^ 32 ≤ c.toInt) :
+    withSafeConcurrency cpus c = 0xFFFFFFFF#32 := by
+  apply BitVec.eq_of_toNat_eq
+  have := toInt_of_pos c (by omega)
+  rw [wsc_toNat, if_neg (by omega), if_pos (by omega)]
+  rfl
+
+/-- below 1 (zero and every negative `int`) the number of CPUs is used -/
+theorem safe_conc_cpus (cpus : BitVec 32) (c : BitVec 64) (h : c.toInt < 1) :
+    withSafeConcurrency cpus c = cpus := by
+  apply BitVec.eq_of_toNat_eq
+  rw [wsc_toNat, if_pos h]
 
 
 -- non-vacuity
-example : (8#32) ≠ 0 ∧ ((5#64).toInt % 2 ^ 32 ≠ 0 ∨ (5#64).toInt < 1) := by decide
+example : (8#32) ≠ 0 := by decide
 example : withSafeConcurrency (8#32) (5#64) = 5#32 := by decide
 example : withSafeConcurrency (8#32) (0#64) = 8#32 := by decide
 example : withSafeConcurrency (8#32) (BitVec.ofInt 64 (-3)) = 8#32 := by decide
--- the other zeros: every positive multiple of 2^32, e.g. 2^33
-example : 1 ≤ (8589934592#64).toInt ∧ (8589934592#64).toInt % 2 ^ 32 = 0 := by decide
-example : withSafeConcurrency (8#32) (8589934592#64) = 0 := by decide
--- silent truncation just above: 2^32 + 1 becomes 1
-example : withSafeConcurrency (8#32) (4294967297#64) = 1#32 := by decide
+example : (BitVec.ofInt 64 (-3)).toInt < 1 := by decide
+-- the old zeros (every positive multiple of 2^32, e.g. 2^32 and 2^33) are clamped now
+example : (2 : Int) ^ 32 ≤ (8589934592#64).toInt := by decide
+example : withSafeConcurrency (8#32) (4294967296#64) = 0xFFFFFFFF#32 := by decide
+example : withSafeConcurrency (8#32) (8589934592#64) = 0xFFFFFFFF#32 := by decide
+-- just above: 2^32 + 1 used to be truncated to 1 silently
+example : withSafeConcurrency (8#32) (4294967297#64) = 0xFFFFFFFF#32 := by decide
+-- the boundary: 2^32 - 1 is the last value kept as it is; the largest int is clamped
+example : withSafeConcurrency (8#32) (4294967295#64) = 4294967295#32 := by decide
+example : withSafeConcurrency (8#32) (9223372036854775807#64) = 0xFFFFFFFF#32 := by decide
+-- the smallest int (sign bit only: as a uint64 it is 2^63 > MaxUint32, but `concurrency < 1` is tested first)
+example : withSafeConcurrency (8#32) (9223372036854775808#64) = 8#32 := by decide
 example : 1 ≤ (1000#64).toInt ∧ (1000#64).toInt < 2 ^ 32 := by decide
 
 /-! ## clampPercentage -/
@@ -215,7 +233,8 @@ theorem toInt_ofInt64 (c : Int) (h1 : -(2 ^ 63) ≤ c) (h2 : c < 2 ^ 63) :
 
 theorem withSafeConcurrencyI_eq (cpus : Nat) (c : Int) (hcpus : cpus < 2 ^ 32)
     (h1 : -(2 ^ 63) ≤ c) (h2 : c < 2 ^ 63) :
-    withSafeConcurrencyI cpus c = if c < 1 then cpus else c.toNat % 2 ^ 32 := by
+    withSafeConcurrencyI cpus c =
+      if c < 1 then cpus else if c ≥ 2 ^ 32 then 2 ^ 32 - 1 else c.toNat := by
   unfold withSafeConcurrencyI
   rw [wsc_toNat, toInt_ofInt64 c h1 h2]
   split
@@ -223,7 +242,7 @@ theorem withSafeConcurrencyI_eq (cpus : Nat) (c : Int) (hcpus : cpus < 2 ^ 32)
   · have hpos : 1 ≤ (BitVec.ofInt 64 c).toInt := by rw [toInt_ofInt64 c h1 h2]; omega
     have := toInt_of_pos _ hpos
     rw [toInt_ofInt64 c h1 h2] at this
-    omega
+    split <;> split <;> omega
 
 theorem clampPercentageI_eq (p : Nat) (hp : p < 256) :
     clampPercentageI p = if p = 0 then 1 else if 100 < p then 100 else p := by
@@ -248,14 +267,17 @@ example : (10#32).toNat * (20#8).toNat < 2 ^ 32 ∧ 1 ≤ (10#32).toNat ∧ (20#
 example : numMinIdleWorkers (3#32) (20#8) = 1#64 := by decide
 -- an unset ratio (0, `WithMinIdleWorkerRatio` never called) gives 1
 example : numMinIdleWorkers (1000#32) (0#8) = 1#64 := by decide
-example : withSafeConcurrencyI 8 4294967296 = 0 := by decide
+example : withSafeConcurrencyI 8 4294967296 = 4294967295 := by decide
+example : withSafeConcurrencyI 8 4294967295 = 4294967295 := by decide
+example : withSafeConcurrencyI 8 (-1) = 8 := by decide
 example : numMinIdleWorkersI 10 50 = 5 := by decide
 
 /-! ## Axiom audit -/
+#print axioms safe_conc_never_zero
 #print axioms safe_conc_pos
-#print axioms safe_conc_zero
-#print axioms safe_conc_zero_iff
 #print axioms safe_conc_id
+#print axioms safe_conc_clamp
+#print axioms safe_conc_cpus
 #print axioms clamp_range
 #print axioms clamp_id
 #print axioms min_idle_toNat
